@@ -403,9 +403,11 @@ func (p *program) parseArgs(args []string) error {
 	if p.shorterErrLocation {
 		wd, err := os.Getwd()
 		if err != nil {
+			// No working directory, no ./-relative locations.
 			log.Printf("getwd: %v", err)
+		} else {
+			p.workDir = addTrailingSlash(wd)
 		}
-		p.workDir = addTrailingSlash(wd)
 		p.gopath = addTrailingSlash(build.Default.GOPATH)
 		p.goroot = addTrailingSlash(build.Default.GOROOT)
 	}
